@@ -69,6 +69,52 @@ def binding_sequence(f):
     return out, params
 
 
+def binding_skeletons(f):
+    """for each local of f (order of first binding): the shape of the statement that first binds it, with every identifier abstracted -
+    node kinds, attribute names, constants.  Two functions that differ only by a renaming of locals have the same list."""
+    seq, params = binding_sequence(f)
+    first = {}
+
+    def skel(node):
+        class A(ast.NodeTransformer):
+            def visit_Name(self, n):
+                return ast.Name(id="_", ctx=n.ctx)
+        import copy
+        return ast.dump(A().visit(copy.deepcopy(node)), annotate_fields=False)
+
+    def rec(stmts):
+        for s_ in stmts:
+            if isinstance(s_, (ast.FunctionDef, ast.AsyncFunctionDef, ast.ClassDef)):
+                continue
+            tg = []
+            if isinstance(s_, ast.Assign):
+                tg = s_.targets
+            elif isinstance(s_, (ast.AugAssign, ast.AnnAssign)):
+                tg = [s_.target]
+            elif isinstance(s_, (ast.For, ast.AsyncFor)):
+                tg = [s_.target]
+            elif isinstance(s_, (ast.With, ast.AsyncWith)):
+                tg = [it.optional_vars for it in s_.items if it.optional_vars is not None]
+            for t in tg:
+                for x in ast.walk(t):
+                    if isinstance(x, ast.Name) and isinstance(x.ctx, ast.Store) and x.id not in first and x.id not in params:
+                        if isinstance(s_, (ast.For, ast.AsyncFor)):
+                            first[x.id] = "for " + skel(s_.target) + " in " + skel(s_.iter)
+                        elif isinstance(s_, (ast.With, ast.AsyncWith)):
+                            first[x.id] = "with"
+                        else:
+                            first[x.id] = skel(s_)
+            for attr in ("body", "orelse", "finalbody"):
+                b = getattr(s_, attr, None)
+                if isinstance(b, list):
+                    rec(b)
+            for h in getattr(s_, "handlers", []) or []:
+                rec(h.body)
+    rec(f.body)
+    import hashlib
+    return [hashlib.sha1(first.get(n, "?").encode()).hexdigest()[:10] for n, _ in seq]
+
+
 def qualnames(tree):
     out = []
 
@@ -96,6 +142,10 @@ def undo_renames(tree, relpath):
             continue
         mapping = {cur: refname for (cur, _), (refname, _) in zip(seq, r["locals"]) if cur != refname}
         if not mapping:
+            continue
+        # position-by-position renaming is only meaningful if the locals are bound by statements of the same shape (a function whose
+        # temporaries were removed and added can have the same NUMBER of locals by coincidence)
+        if r.get("skel") is not None and binding_skeletons(f) != r["skel"]:
             continue
         # the renaming must be a bijection of the local names and must not capture another name used in the function
         cur_names = {n for n, _ in seq}
